@@ -54,7 +54,7 @@ fn main() {
         };
         let loc = info.location().map(|l| format!("{}:{}", l.file(), l.line())).unwrap_or_default();
         // panics raised in this crate's own sources are harness assertions
-        let tag = if loc.starts_with("src/") { "VERIF: " } else { "" };
+        let tag = if loc.starts_with("src/") && !loc.starts_with("src/usertypes.rs") { "VERIF: " } else { "" };
         println!("OUTCOME: panic {}{} @ {}", tag, msg.replace('\n', " "), loc);
     }));
     let r = panic::catch_unwind(f);
